@@ -3,6 +3,7 @@ package main
 import (
 	"fmt"
 	"go/types"
+	"sort"
 )
 
 // PTS/DTS 5-byte layout, ISO/IEC 13818-1 §2.4.3.7 (Table 2-21): value bits
@@ -216,6 +217,81 @@ func runC04(c *Checker) {
 		}
 	}
 	c.checkPCRWindows()
+	c.checkPESTimestamps()
+}
+
+// checkPESTimestamps: the end-to-end clause for PES headers. NewPESHeader is
+// interpreted on headers that end exactly at the last timestamp byte, one byte
+// later and well beyond, for three stream ids with an optional header; the
+// getters of the returned object must report the 33 value bits of the windows
+// 9..13 (PTS) and 14..18 (DTS) and the presence flags.
+func (c *Checker) checkPESTimestamps() {
+	const anchor = "pes:NewPESHeader"
+	fn, err := c.P.Func(anchor)
+	if err != nil {
+		c.undecided("C04.pes", anchor, "anchor", err.Error())
+		return
+	}
+	c.analysed[fn.String()] = true
+	var fails []string
+	runs := 0
+	for _, id := range []int{0xE0, 0xC0, 0xBD} {
+		for _, flags := range []int{2, 3} {
+			min := 14
+			if flags == 3 {
+				min = 19
+			}
+			for _, n := range []int{min, min + 1, 64} {
+				s := Analyze(c.P, fn, &AnalyzeOpts{SliceLen: map[string]int{"pesBytes": n}, Pre: func(in *Interp, st *State, ps []Val) {
+					o := ps[0].(*SliceV).Obj
+					in.setCell(st, o, "3", constInt(int64(id), 8, false))
+					b7 := &BV{W: 8, Bits: append([]Bit(nil), cellBV(o.Name, 7).Bits...)}
+					b7.Bits[7], b7.Bits[6] = bconst(flags&2 != 0), bconst(flags&1 != 0)
+					in.setCell(st, o, "7", b7)
+				}})
+				runs++
+				tag := fmt.Sprintf("stream_id=%#x PTS_DTS_flags=%02b len=%d: ", id, flags, n)
+				if s.Failed != "" {
+					fails = append(fails, tag+s.Failed)
+					continue
+				}
+				if nb := s.in.nilBit(s.RetN(1)); !isConst(nb) || !nb.c {
+					fails = append(fails, tag+"returns an error for a complete header")
+					continue
+				}
+				nv := &nav{s.in, s.Out}
+				name := paramName(s, 0)
+				get := func(m string, w int, want []Bit) {
+					got, _ := nv.call(s.RetN(0), m).(*BV)
+					if got == nil || got.W != w {
+						fails = append(fails, tag+m+"() is "+showVal(got))
+						return
+					}
+					if ok, d := matchBits(got, want); !ok {
+						fails = append(fails, tag+m+"(): "+d)
+					}
+				}
+				get("HasPTS", 1, []Bit{U.B1})
+				get("HasDTS", 1, []Bit{bconst(flags == 3)})
+				get("PTS", 64, fieldBitsAt(name, ptsLayout, 9))
+				if flags == 3 {
+					get("DTS", 64, fieldBitsAt(name, ptsLayout, 14))
+				} else {
+					get("DTS", 64, nil)
+				}
+				if w := s.WrittenCells(); len(w) > 0 {
+					fails = append(fails, tag+fmt.Sprintf("input modified: %v", w))
+				}
+			}
+		}
+	}
+	sort.Strings(fails)
+	d := ""
+	if len(fails) > 0 {
+		d = fmt.Sprintf("%d mismatches; first: %s", len(fails), fails[0])
+	}
+	c.check("C04.pes", anchor, "a PTS/DTS carried in a PES header is read back: for headers ending exactly at the last timestamp byte, one byte later and 64 bytes long, PTS()/DTS() are the 33 value bits of windows 9..13 / 14..18 and HasPTS/HasDTS follow PTS_DTS_flags", len(fails) == 0, d)
+	c.floorCheck("C04.pes analyses", runs, 18)
 }
 
 // afSeed seeds an AdaptationField receiver: AF flag set, the five presence
